@@ -21,9 +21,9 @@ BUILDS = {'quick': [('k160', 'stone5', 'full', 'all_layouts')], 'thorough': [('k
 RULE = ('per layout and per evaluator (composition, DEEP): R random full inputs (mask/columns, oods values, point, oods point, trace '
         'generator, every global value, coefficient vector) compared model-vs-code; additivity triples (c1, c2, c1+c2) and a scaled vector on '
         'the real code; every unit coefficient vector e_i on the real code (value must be non-zero for every position of an enabled '
-        'component; dynamic layout: the shipped instance, pedersen + range_check enabled). R = 2 quick / 8 thorough. non-trivial = all.')
+        'component; dynamic layout: the shipped instance and ~16 instances with other builtin switches — each alone, all, none, random subsets). R = 2 quick / 8 thorough. non-trivial = all.')
 ASSUMPTIONS = ['non-vanishing is tested at random points (Schwartz-Zippel), not proved',
-               'dynamic layout instances: the shipped dynamic parameters (pedersen, range_check enabled); other builtins disabled there']
+               'dynamic layout instances: shipped parameters with builtin switches toggled (row ratios of newly enabled builtins set to 16)']
 TRUSTED = ['tools/gen_ast.py + tools/rustexpr.py (translator); DumpAst.lean printer check; Python additivity / non-zero oracle']
 META = None
 
@@ -40,9 +40,28 @@ def meta():
     return META
 
 
-def enabled_positions(layout, fn):
+def dyn_instances(rng, tier):
+    """dynamic-layout instances: the shipped parameters, and the same with other builtin switches (alone, all, none, random
+    subsets; zero row ratios of newly enabled builtins set to 16 so that their domains are non-degenerate)"""
+    m = meta(); names = m['dynamic_params']; base = list(m['dyn'])
+    flags = [n for n in names if n.startswith('uses_')]
+    ratios = [n for n in names if n.endswith('_ratio')]
+    def inst(on):
+        d = list(base)
+        for f in flags: d[names.index(f)] = 1 if f in on else 0
+        for r in ratios:
+            if d[names.index(r)] == 0: d[names.index(r)] = 16
+        return d
+    sets = [None] + [{f} for f in flags] + [set(flags), set()]
+    for _ in range(4 if tier == 'quick' else 40):
+        sets.append({f for f in flags if rng.chance(1, 2)})
+    return [(('shipped' if on is None else '+'.join(sorted(x[5:-8] for x in on)) or 'none'), base if on is None else inst(on)) for on in sets]
+
+
+def enabled_positions(layout, fn, dyn=None):
     """coefficient index -> enabled? (from the translated text program: guards of acc statements, guard slot <- dp j)"""
-    m = meta()
+    m = dict(meta())
+    if dyn is not None: m['dyn'] = dyn
     path = os.path.join(fw.LEAN, 'Swiftness', 'Generated', 'ast', f'{layout}.{fn}.txt')
     slot_dp = {}; out = {}
     for line in open(path):
@@ -65,8 +84,11 @@ def layout_dims(L):
     return g('N_CONSTRAINTS'), g('MASK_SIZE'), g('CONSTRAINT_DEGREE'), n1 + n2 + g('CONSTRAINT_DEGREE')
 
 
+CUR_DYN = None
+
+
 def dyn_tok(L):
-    return (' ' + ','.join(format(x, 'x') for x in meta()['dyn'])) if L == 'dynamic' else ''
+    return (' ' + ','.join(format(x, 'x') for x in (CUR_DYN or meta()['dyn']))) if L == 'dynamic' else ''
 
 
 def comp_line(L, mask, coeffs, point, tgen, gv):
@@ -86,38 +108,47 @@ def corpus(feats):
 def cases(rng, tier, feats, drv_ok):
     out = []
     R = 2 if tier == 'quick' else 8
-    for L in LAYOUTS:
+    global CUR_DYN
+    runs = [(L, None, None) for L in LAYOUTS if L != 'dynamic'] + [('dynamic', nm, d) for nm, d in dyn_instances(rng, tier)]
+    for L, iname, dynv in runs:
+        CUR_DYN = dynv
         N, M, D, ncols = layout_dims(L)
         ngv = len(meta()[L]['gv'])
-        en_c = enabled_positions(L, 'composition'); en_o = enabled_positions(L, 'oods')
-        for r in range(R):
+        en_c = enabled_positions(L, 'composition', dynv); en_o = enabled_positions(L, 'oods', dynv)
+        tag = L if iname is None else f'dynamic[{iname}]'
+        for r in range(R if iname in (None, 'shipped') else 1):
             mask = [rng.felt() for _ in range(M)]; gv = [rng.felt() for _ in range(ngv)]
             # trace_length is used as an exponent divisor: keep it a plausible power of two half of the time
             if 'trace_length' in meta()[L]['gv'] and rng.chance(1, 2):
-                gv[meta()[L]['gv'].index('trace_length')] = 1 << rng.choice([10, 16, 20])
+                gv[meta()[L]['gv'].index('trace_length')] = 1 << rng.choice([20, 22, 24])   # >= every row ratio: smaller traces give degenerate (zero) domains
             point, tgen = rng.felt(), rng.felt()
             c1 = [rng.felt() for _ in range(N)]; c2 = [rng.felt() for _ in range(N)]
             a = rng.felt()
             mk = lambda cs: comp_line(L, mask, cs, point, tgen, gv)
-            out.append({'line': mk(c1), 'kind': f'{L}:composition:random', 'layout': L, 'fn': 'composition',
+            out.append({'line': mk(c1), 'kind': f'{L}:composition:random', 'layout': tag, 'fn': 'composition', 'hxonly': iname not in (None, 'shipped') and not rng.chance(1, 4),
                         'aux': [mk(c2), mk([(x + y) % P for x, y in zip(c1, c2)]), mk([a * x % P for x in c1])], 'scalar': a})
             if r == 0:
                 for i in range(N):
-                    out.append({'line': mk([1 if j == i else 0 for j in range(N)]), 'kind': f'{L}:composition:unit', 'layout': L, 'fn': 'composition',
+                    out.append({'line': mk([1 if j == i else 0 for j in range(N)]), 'kind': f'{L}:composition:unit', 'layout': tag, 'fn': 'composition',
                                 'unit': i, 'enabled': en_c.get(i), 'hxonly': not (i % 37 == r)})
             cols = [rng.felt() for _ in range(ncols)]; oods = [rng.felt() for _ in range(M + D)]
             op = rng.felt()
             d1 = [rng.felt() for _ in range(M + D)]; d2 = [rng.felt() for _ in range(M + D)]
             mo = lambda cs: oods_line(L, cols, oods, cs, point, op, tgen)
-            out.append({'line': mo(d1), 'kind': f'{L}:oods:random', 'layout': L, 'fn': 'oods',
+            if iname not in (None, 'shipped'):
+                continue        # the DEEP evaluator has no conditional statements: one dynamic instance suffices
+            out.append({'line': mo(d1), 'kind': f'{L}:oods:random', 'layout': tag, 'fn': 'oods',
                         'aux': [mo(d2), mo([(x + y) % P for x, y in zip(d1, d2)]), mo([a * x % P for x in d1])], 'scalar': a})
             if r == 0:
                 for i in range(M + D):
-                    out.append({'line': mo([1 if j == i else 0 for j in range(M + D)]), 'kind': f'{L}:oods:unit', 'layout': L, 'fn': 'oods',
+                    out.append({'line': mo([1 if j == i else 0 for j in range(M + D)]), 'kind': f'{L}:oods:unit', 'layout': tag, 'fn': 'oods',
                                 'unit': i, 'enabled': en_o.get(i), 'hxonly': not (i % 41 == r)})
+        if iname not in (None, 'shipped'):
+            continue
         # short vectors: index panics must agree with the model (C18 tracks them)
         out.append({'line': comp_line(L, [1] * (M - 1), [1] * N, 5, 7, [3] * ngv), 'kind': f'{L}:composition:short-mask', 'layout': L, 'fn': 'composition'})
         out.append({'line': comp_line(L, [1] * M, [1] * (N - 1), 5, 7, [3] * ngv), 'kind': f'{L}:composition:short-coeffs', 'layout': L, 'fn': 'composition'})
+    CUR_DYN = None
     return out
 
 
@@ -140,7 +171,9 @@ def oracle(c, co):
         if c['enabled'] is None:
             return {'key': f"{c['layout']}:{c['fn']}:position-missing", 'what': f"coefficient position {c['unit']} of {c['layout']} {c['fn']} is consumed by no accumulate statement"}
         if c['enabled'] and v == 0:
-            return {'key': f"{c['layout']}:{c['fn']}:zero-term", 'what': f"coefficient position {c['unit']} of {c['layout']} {c['fn']} contributes a zero term at a random point"}
+            return {'key': f"{c['layout']}:{c['fn']}:zero-term", 'what': f"coefficient position {c['unit']} of {c['layout']} {c['fn']} (component enabled) contributes a zero term at a random point"}
+        if c['enabled'] is False and v != 0:
+            return {'key': f"{c['layout']}:{c['fn']}:disabled-term", 'what': f"coefficient position {c['unit']} of {c['layout']} {c['fn']} contributes although its component is disabled"}
         return None
     a = c.get('aux_code', [])
     if len(a) == 3 and all(x[0] == 'ok' for x in a):
